@@ -30,6 +30,7 @@ type PropSpec struct {
 	Assumptions []string
 	Bounded     func(e *Engine, tier string, ev *Evidence) (violations []string)
 	Prepare     func(e *Engine)
+	CustomLock  bool // the property interprets its obligations.lock lines itself (they are not function keys)
 	NoTags      bool // claim only what obligations.lock lists (property tags in contract files are informational)
 }
 
@@ -172,9 +173,10 @@ func runCheck(prop, tier, repo string, overlay map[string][]byte, writeEvidence 
 			claimed[k] = true
 		}
 	}
-	locked := loadLock(filepath.Join(root, "obligations.lock"), prop)
-	for _, k := range locked {
-		claimed[k] = true
+	if !spec.CustomLock {
+		for _, k := range loadLock(filepath.Join(root, "obligations.lock"), prop) {
+			claimed[k] = true
+		}
 	}
 	var keys []string
 	for k := range claimed {
